@@ -353,6 +353,12 @@ def _one_checker_per_component(ctx, prog):
             continue
         ctx.touch(body)
         fk = lib.fkey(body)
+        # a map keyed by the component's TypeId holds at most one checker per component by construction
+        by_map = [pb for pb in pushes if any(x in mir.fn_name(op_fn(body.blocks[pb]["term"]["func"])) for x in ("HashMap", "BTreeMap", "Entry", "hash::map"))]
+        for pb in by_map:
+            n += 1
+            ctx.ok("C08.a", "%s:one-checker-per-component" % fk, body.loc(pb), "checkers are stored in a map keyed per component")
+        pushes = [pb for pb in pushes if pb not in by_map]
         sets = {}
         for b, t, fr in body.iter_calls():
             if fr and lib.tail(mir.fn_name(fr), 1) in ("contains", "insert", "contains_key") and t["args"]:
